@@ -6,6 +6,7 @@ import N2V.Lemmas.SchedTerm
 import N2V.Lemmas.SchedCycle
 import N2V.Model.Run
 import N2V.Lemmas.LoadSched
+import N2V.Lemmas.SchedWantTerm
 namespace N2V.C06
 open N2V N2V.Sched
 
@@ -134,8 +135,8 @@ theorem cycle_diagnostic_sound (g : Graph) (s s' : S) (f : Nat) (m : String) (h 
     `#builds+1` of the start and ready loops).  Every round of the outer loop that continues moves
     a build forward in Unknown < Want < Ready < Queued < Running < Done < Failed (`gain`, bounded by
     6 per build: `gain_eq`); every start takes a build out of the Queued stock and every round of
-    the ready loop one out of the Want/Ready stock.  (The want phase's own recursion bound,
-    `wantFuel`, is not covered by this theorem.) -/
+    the ready loop one out of the Want/Ready stock.  (The want phase's own recursion is covered by
+    `want_phase_terminates` below.) -/
 theorem run_loops_terminate {E : Type} {g : Graph} (gok : GraphOK g) (a : Run.Args) (c : Choices E) (e : E) :
     (Run.build g a c e).2.2 ≠ .fuel ∧ ∀ n0, (Run.buildReloaded g a c e n0).2.2 ≠ .fuel :=
   ⟨Run.build_no_fuel gok a c e, fun n0 => Run.buildReloaded_no_fuel gok a c e n0⟩
@@ -159,5 +160,39 @@ theorem never_internal_error_loaded (w : Work.World) (m : Bytes) (l : Load.Loade
     (Run.build (Work.schedGraph e0.g) a c e0).2.2 ≠ .bug :=
   (never_internal_error (loaded_graph_meets_hypotheses w m l e0 h).1 (loaded_graph_meets_hypotheses w m l e0 h).2
     acyc a hpar c e0).1
+
+/-- **The want phase terminates**: `Work::want_file` — the mutually recursive `want_file` /
+    `want_build` with its loops over ordering and validation inputs, including re-entrant visits
+    through validation edges and input lists of any length (repeated inputs included) — never
+    runs out of the model's fuel `wantFuel g = (longest input list + 3)·(#builds+1)·(#files+1) + 2`,
+    for every graph whose producers and inputs are in range, every state and every file; likewise
+    the marking of command-line targets, `default`s, or every file.  Measure: (#builds still
+    Unknown)·(#files+1) + #files not on the cycle stack; a producer edge pushes a file that is not
+    on the stack, a validation edge is crossed only after its build left Unknown. -/
+theorem want_phase_terminates (g : Graph) (gok : GraphOK g) (fok : FilesOK g) (s : S) :
+    (∀ f, f < g.nFiles → FuelOK (want g s f)) ∧
+    (∀ fs, (∀ f ∈ fs, f < g.nFiles) → FuelOK (Run.wantAll g s fs)) ∧
+    (∀ a ns, FuelOK (Run.wantTargets g a s ns)) :=
+  ⟨fun f hf => want_never_out_of_fuel g gok fok s f hf,
+   fun fs hfs => Run.wantAll_fuelOK g gok fok fs hfs s,
+   fun a ns => Run.wantTargets_fuelOK g gok fok a ns s⟩
+
+/-- ... and its hypotheses hold of every graph an invocation schedules on. -/
+theorem want_phase_terminates_loaded (w : Work.World) (m : Bytes) (l : Load.Loader) (e0 : Work.Env)
+    (h : Work.loadEnv w m = .ok (l, e0)) (s : S) (f : Nat) (hf : f < (Work.schedGraph e0.g).nFiles) :
+    FuelOK (want (Work.schedGraph e0.g) s f) :=
+  want_never_out_of_fuel _ (Work.loadEnv_graph_ok w m l e0 h).2.1
+    (Work.schedGraph_filesOK e0.g (Work.loadEnv_graph_ok w m l e0 h).1) s f hf
+
+/-- Non-vacuity / the case that exposed the old bound: one step listing the same input 40 times
+    (`build out: cc a a a …`) is marked without running out of fuel. -/
+def exRepeated : Graph :=
+  { nBuilds := 1, nFiles := 2,
+    build := fun _ => { ordering := List.replicate 40 1, validation := [], outs := [0], phony := false, pool := [] },
+    producer := fun f => if f = 0 then some 0 else none,
+    dependents := fun _ => [], fileName := fun _ => [] }
+
+example : (match want exRepeated (init [] none) 0 with | .ok _ _ => true | _ => false) = true := by
+  decide
 
 end N2V.C06
